@@ -162,6 +162,7 @@ func init() {
 		ruleMemberLoops(inPkgs("maptile/tilecover."), 5, 1),
 		ruleShapeFaults(shapeConfig{label: "tilecover", keep: inPkgs("maptile/tilecover."), floor: 8}),
 		ruleLoopShapes(inPkgs("maptile/tilecover."), 1, 3),
+		ruleDispatchDelegation([]string{"maptile/tilecover"}, 6),
 	)
 
 	register("C18",
@@ -237,6 +238,7 @@ func init() {
 		ruleCompactionIndex(notGenerated, 6),
 		ruleMakeThenAppend(notGenerated, 8),
 		ruleLastIterationWins(notGenerated, 100),
+		ruleDispatchDelegation([]string{"maptile/tilecover", "clip", "project", "clip/smartclip"}, 20),
 	)
 }
 
